@@ -1,6 +1,6 @@
 """Op-file generators for stream `ex` (C18 permission gate, C19 external commands).
 The harness side needs root (chown to a foreign uid/gid) and really starts processes:
-perm ops cost ~1 ms each, exec ops up to timeout + 3 s (blocking behaviours)."""
+perm ops cost ~1 ms each, exec ops up to timeout + 200 ms (timeout + 3 s if a call ever blocks again)."""
 from .gen import Rng
 
 OWNERS = [0, 1234]
@@ -24,7 +24,7 @@ def gen_mode(r):
         base = r.pick([0o755, 0o700, 0o644, 0o000, 0o777])
         bit = r.pick(INTERESTING)
         return (base | bit) if r.chance(0.5) else (base & ~bit & 0o777)
-    if k == 3:  # no x bit at all: passes the check (if root-owned) but cannot be started
+    if k == 3:  # no x bit at all: passes the check (if root-owned) but cannot be started (-> run=err)
         return r.below(512) & ~0o111
     if k == 4:  # exactly the write bits vary
         return 0o555 | (r.below(2) * 0o020) | (r.below(2) * 0o002) | (r.below(2) * 0o200)
@@ -94,40 +94,58 @@ def gen_cfg(r, n, exhaustive=False):
 
 
 FAST_BEHS = ["exit0", "exit3", "exit3out", "killed", "notexec", "badformat", "vanish", "empty", "garbage", "huge"]
-SLOW_BEHS = ["sleep", "execsleep", "grandchild"]
+# behaviours that blocked the call before cmd.WaitDelay was set; now bounded by timeout + 200 ms
+HOLD_BEHS = ["sleep", "execsleep", "grandchild"]
 TIMEOUTS = [200, 500, 1000, 2000]
+SHORT_TIMEOUTS = [200, 300, 400, 500, 600]
+USER_KINDS = ["sensor", "fanpwm", "fanrpm", "fanset"]
+
+
+def hold_op(r, timeout=None):
+    """One op of a formerly blocking behaviour, timeouts 200..600 ms. For `grandchild` the holder's
+    time is either absent (30 s), well below cmdWaitDelay = 200 ms (text returned) or well above it
+    (exec.ErrWaitDelay) - never near the boundary, which is a race on the real clock."""
+    t = timeout or r.pick(SHORT_TIMEOUTS)
+    b = r.pick(HOLD_BEHS)
+    if b != "grandchild":
+        return f"ex.run beh={b} timeout_ms={t}"
+    k = r.below(4)
+    if k == 0:
+        return f"ex.run beh=grandchild timeout_ms={t}"
+    if k == 1:
+        return f"ex.run beh=grandchild timeout_ms={t} hold_ms={r.range(20, 110)}"
+    if k == 2:  # released after WaitDelay but before the deadline (for the longer timeouts): still an error
+        return f"ex.run beh=grandchild timeout_ms={t} hold_ms={r.range(330, max(340, t - 50))}"
+    return f"ex.run beh=grandchild timeout_ms={t} hold_ms={t + r.range(300, 1500)}"  # after the deadline
 
 
 def gen_exec(r, n):
-    """all behaviours x a few timeouts; at most n ops (n >= 20 covers every behaviour once).
-    Blocking behaviours cost timeout + 3 s each, so they get the short timeouts."""
+    """all behaviours x a few timeouts; about n ops (n >= 36 covers every behaviour and caller once).
+    No op costs more than timeout + 200 ms since cmd.WaitDelay is set (a regression shows up as
+    `res=blocked` after timeout + 3 s)."""
     ops = ["#case ex run"]
     body = []
     for b in FAST_BEHS:
         body.append(f"ex.run beh={b} timeout_ms={r.pick(TIMEOUTS)}")
-    body.append(f"ex.run beh=execsleep timeout_ms={r.pick([200, 500])}")
-    body.append(f"ex.run beh=sleep timeout_ms={r.pick([200, 300])}")
-    body.append(f"ex.run beh=grandchild timeout_ms={r.pick([200, 300])}")
+    body.append(f"ex.run beh=execsleep timeout_ms={r.pick(SHORT_TIMEOUTS)}")
+    body.append(f"ex.run beh=sleep timeout_ms={r.pick(SHORT_TIMEOUTS)}")
+    body.append(f"ex.run beh=grandchild timeout_ms={r.pick(SHORT_TIMEOUTS)}")
     t = r.pick([300, 500])
-    # the pipe is released AFTER the deadline but before the watchdog: the late ("", nil) return
-    body.append(f"ex.run beh=grandchild timeout_ms={t} hold_ms={t + r.range(800, 1500)}")
-    t = r.pick([1000, 2000])
-    # released well BEFORE the deadline: normal result
-    body.append(f"ex.run beh=grandchild timeout_ms={t} hold_ms={r.range(100, t - 400)}")
+    body.append(f"ex.run beh=grandchild timeout_ms={t} hold_ms={t + r.range(800, 1500)}")   # release after the deadline
+    body.append(f"ex.run beh=grandchild timeout_ms={r.pick([1000, 2000])} hold_ms={r.range(400, 900)}")  # before it, past WaitDelay
+    body.append(f"ex.run beh=grandchild timeout_ms={r.pick(SHORT_TIMEOUTS)} hold_ms={r.range(20, 110)}")  # quick release
     body.append("ex.run beh=exit0 timeout_ms=0")
     body.append("ex.run beh=notexec timeout_ms=0")
-    for kind in ["sensor", "fanpwm", "fanrpm", "fanset"]:
+    for kind in USER_KINDS:
         body.append(f"ex.user kind={kind} beh={r.pick(['exit0', 'exit0', 'garbage', 'empty'])}")
         body.append(f"ex.user kind={kind} beh={r.pick(['notexec', 'badformat', 'vanish'])}")
         body.append(f"ex.user kind={kind} beh={r.pick(['exit3', 'exit3out', 'killed'])}")
     while len(body) < n:
         k = r.below(10)
-        if k < 7:
+        if k < 5:
             body.append(f"ex.run beh={r.pick(FAST_BEHS)} timeout_ms={r.pick(TIMEOUTS)}")
-        elif k == 7:
-            body.append(f"ex.run beh=execsleep timeout_ms={r.pick([200, 500, 1000])}")
-        elif k == 8:
-            body.append(f"ex.user kind={r.pick(['sensor', 'fanpwm', 'fanrpm', 'fanset'])} beh={r.pick(FAST_BEHS)}")
+        elif k < 9:
+            body.append(hold_op(r))
         else:
-            body.append(f"ex.run beh={r.pick(['sleep', 'grandchild'])} timeout_ms=200")
+            body.append(f"ex.user kind={r.pick(USER_KINDS)} beh={r.pick(FAST_BEHS)}")
     return ops + (body[:n] if 0 < n < len(body) else body)
